@@ -83,6 +83,17 @@ def _mutated_self_attrs(P, cls, skip):
             if f.name in skip:
                 continue
             first = f.params()[0] if f.params() else None
+            # locals that alias an attribute (tokens = self._tokens): mutating the alias mutates the attribute
+            alias = {}
+            for n in walk_no_nested(f.node):
+                if isinstance(n, ast.Assign) and len(n.targets) == 1 and isinstance(n.targets[0], ast.Name) \
+                        and isinstance(n.value, ast.Attribute) and isinstance(n.value.value, ast.Name) and n.value.value.id == first:
+                    alias[n.targets[0].id] = n.value.attr
+            for n in walk_no_nested(f.node):
+                if isinstance(n, ast.Call) and isinstance(n.func, ast.Attribute) and isinstance(n.func.value, ast.Name) \
+                        and n.func.value.id in alias and n.func.attr in ('append', 'update', 'clear', 'setdefault', 'extend', 'insert',
+                                                                          'remove', 'add', 'discard', 'popitem'):
+                    names.add(alias[n.func.value.id])
             for n in walk_no_nested(f.node):
                 tgt = None
                 if isinstance(n, (ast.Assign, ast.AugAssign, ast.AnnAssign)):
